@@ -18,9 +18,9 @@ TIERS = {
     'C14': {'quick': (8000, 200, 90), 'thorough': (120000, 1700, 120)},
     'C15': {'quick': (8000, 200, 90), 'thorough': (120000, 1700, 120)},
     'C11': {'quick': (5000, 200, 90), 'thorough': (70000, 1700, 120)},
-    'C01': {'quick': (160, 200, 75), 'thorough': (2500, 1750, 600)},
-    'C02': {'quick': (160, 200, 75), 'thorough': (2500, 1750, 600)},
-    'C03': {'quick': (140, 200, 75), 'thorough': (1500, 1750, 600)},
+    'C01': {'quick': (160, 200, 90), 'thorough': (2500, 1750, 620)},
+    'C02': {'quick': (160, 200, 90), 'thorough': (2500, 1750, 620)},
+    'C03': {'quick': (140, 200, 90), 'thorough': (1500, 1750, 620)},
 }
 
 
